@@ -4,6 +4,7 @@ import (
 	"bufio"
 	"errors"
 	"fmt"
+	"io"
 	"net/http"
 	"strconv"
 	"strings"
@@ -31,6 +32,17 @@ func parseOutcome(s string) (outcome, error) {
 	}
 	return outcome{}, fmt.Errorf("bad outcome %q", s)
 }
+
+// trackedBody: the scripted response body; records reads and Close so that the check can tell whether the
+// middleware handed the response back untouched
+type trackedBody struct {
+	r      *strings.Reader
+	read   bool
+	closed bool
+}
+
+func (b *trackedBody) Read(p []byte) (int, error) { b.read = true; return b.r.Read(p) }
+func (b *trackedBody) Close() error               { b.closed = true; return nil }
 
 type scriptErr struct{ i int }
 
@@ -72,7 +84,7 @@ func oneRetry(line string) string {
 		var resp *http.Response
 		var err error
 		if o.hasResp {
-			resp = &http.Response{StatusCode: o.status, Body: http.NoBody}
+			resp = &http.Response{StatusCode: o.status, Body: &trackedBody{r: strings.NewReader("b" + strconv.Itoa(i))}}
 			resps[resp] = i
 		}
 		if o.hasErr {
@@ -110,6 +122,18 @@ func oneRetry(line string) string {
 				es = "foreign"
 			}
 		}
+		// the returned response must be usable by the caller: body unread, not closed, content intact
+		bs := "none"
+		if resp != nil {
+			if tb, ok := resp.Body.(*trackedBody); ok {
+				pre := fmt.Sprintf("read=%v,closed=%v", tb.read, tb.closed)
+				content, _ := io.ReadAll(resp.Body)
+				bs = pre + ",content=" + string(content)
+			} else {
+				bs = "foreign-body"
+			}
+		}
+		fmt.Fprintf(&sb, "%s impl body %s\n", id, bs)
 		fmt.Fprintf(&sb, "%s impl calls %d\n", id, calls)
 		fmt.Fprintf(&sb, "%s impl ret resp=%s err=%s\n", id, rs, es)
 		fmt.Fprintf(&sb, "%s impl trace %s\n", id, strings.Join(trace, " "))
